@@ -278,6 +278,51 @@ func (r *Run) BuildCancelledAt(n int) {
 	r.Results = append(r.Results, res)
 }
 
+// BuildTimeoutAt runs BuildWithOptions with a short BuildTimeout while the n-th constructor
+// invocation of the Build outlasts it: Build must notice the expiry before the next singleton
+// and fail, cleaning up what it created (or succeed when that was the last one).
+func (r *Run) BuildTimeoutAt(n int) {
+	opIdx := len(r.Ops)
+	r.Ops = append(r.Ops, Op{Kind: OpBuild})
+	res := OpResult{Op: opIdx}
+	var mu sync.Mutex
+	seen := 0
+	r.Rec.SetHook(func(hp rt.HookPoint) {
+		if hp.Where != "ctor" {
+			return
+		}
+		mu.Lock()
+		seen++
+		hit := seen == n
+		mu.Unlock()
+		if hit {
+			time.Sleep(45 * time.Millisecond)
+		}
+	})
+	res.Call = r.Rec.BeginOp(opIdx, 0, fmt.Sprintf("BuildWithOptions(BuildTimeout) expiring inside constructor invocation %d", n))
+	func() {
+		defer func() {
+			if p := recover(); p != nil {
+				r.BuildPanic = p
+				r.Poisoned = true
+			}
+		}()
+		r.Prov, r.BuildErr = r.Coll.BuildWithOptions(&godi.ProviderOptions{BuildTimeout: 15 * time.Millisecond})
+	}()
+	r.Rec.SetHook(nil)
+	switch {
+	case r.BuildPanic != nil:
+		res.Class = "PANIC"
+		res.Panic = r.BuildPanic
+	default:
+		res.Class = Classify(r.BuildErr)
+		res.Err = r.BuildErr
+	}
+	res.Ret = r.Rec.EndOp(opIdx, 0, res.Class)
+	r.Built = r.BuildErr == nil && r.BuildPanic == nil && r.Prov != nil
+	r.Results = append(r.Results, res)
+}
+
 // target returns the godi.Provider behind harness scope id.
 func (r *Run) target(scope int) godi.Provider {
 	if scope == 0 {
